@@ -410,6 +410,30 @@ theorem zst_cache_aliases_ptr_eq (c : Cache) (n1 n2 s1 al1 s2 al2 : Nat) (t1 t2 
   rw [aliasing_results_ptr_eq _ _ ch1 ch2 q1 q2 h1 h2]
   exact decide_eq_true (zst_shared_alias c n1 n2 s1 al1 s2 al2 hs1 hs2)
 
+/-- A cache that is held where the collector finds it — its `cached_ptr` is among the slots
+    reported by the root or by an object the client can name, which is what `Collect for
+    ZstCache` (`NEEDS_TRACE = true`, `trace_gc(self.cached_ptr)`) provides wherever the cache is
+    stored — keeps its shared block through any history: allocated, undestructed, not released.
+    So every later qualifying `alloc` returns a valid pointer, `ptr_eq` to the earlier ones
+    (`zst_shared_alias`).  (A corollary of `converted_keeps_alive`; that the premise holds for a
+    cache inside `Option` / `Box` / `Vec` / a struct field is C16's claim about `NEEDS_TRACE` and is
+    observed by harness_conv's `zkeep` cases.) -/
+theorem zst_cache_rooted_block_kept (n : Nat) (ops : List Op)
+    (halive : ((Arena.new n).run ops).alive = true) (c : Cache)
+    (held : some (Ptr.strong c.obj) ∈ ((Arena.new n).run ops).root ∨
+      ∃ j o, Accessible ((Arena.new n).run ops) j ∧
+        ((Arena.new n).run ops).ctx.heap.get j = some o ∧ some (Ptr.strong c.obj) ∈ o.slots) :
+    Safe ((Arena.new n).run ops).ctx c.obj ∧ Event.dropped c.obj ∉ ((Arena.new n).run ops).ctx.log ∧
+    Event.freed c.obj ∉ ((Arena.new n).run ops).ctx.log := by
+  let a : Alloc := ⟨c.obj, .zcached 1 c.maxAlign, true, false⟩
+  have h : apply a [] (initPtr a) = some (initPtr a) := rfl
+  have hp : (initPtr a).toPtr = .strong c.obj := rfl
+  have := converted_keeps_alive n ops halive a [] (initPtr a) (initPtr a) h rfl
+    (by rw [hp]; rcases held with h1 | h2
+        · exact Or.inl h1
+        · exact Or.inr (Or.inr h2))
+  exact ⟨this.2.1, this.2.2.1, this.2.2.2⟩
+
 /-- The value handed to `alloc` is destructed exactly once in either case: at once when the
     shared pointer is returned (the shared block holds no `T`), with its block otherwise.
     (Immediate from the definition, which records what `alloc` does with its by-value argument;
